@@ -417,6 +417,12 @@ func (e *Engine) havocItem(st *State, env *SpecEnv, item string) {
 	case item == "big":
 		st.havocKey("BigVal")
 		return
+	case item == "ghosts":
+		// every declared ghost variable (model-internal G:$... ghosts are left alone)
+		for name := range e.db.Ghosts {
+			st.havocKey("G:" + name)
+		}
+		return
 	}
 	if g, ok := e.db.Ghosts[item]; ok {
 		_ = g
